@@ -8,6 +8,7 @@ import PK.Model.Machine
 import PK.Model.Games
 import PK.Model.Analysis
 import PK.Model.Notation
+import PK.Model.Acpc
 open PK PK.State
 
 namespace Driver
@@ -361,6 +362,36 @@ partial def loop (T : Tables) (inp out : IO.FS.Stream) (ss : Sess) : IO Unit := 
         out.putStrLn s!"T {h} {pBool su} {e.index} {e.label}"
       out.putStrLn "."
       loop T inp out ss
+  | "acpc" :: nt :: viewer :: n :: ops =>
+    -- protocol fields for an operation log given in the compact form of harness/acpc.py
+    let n := n.toNat?.getD 0
+    let parseOp (t : String) : Option Operation :=
+      match t.splitOn ":" with
+      | ["A", p, a] => some (.antePosting (p.toNat?.getD 0) (a.toInt?.getD 0))
+      | ["B", p, a] => some (.blindOrStraddlePosting (p.toNat?.getD 0) (a.toInt?.getD 0))
+      | ["H", p, cs] => some (.holeDealing (p.toNat?.getD 0) (parseCards cs) [])
+      | ["D", cs] => some (.boardDealing (parseCards cs))
+      | ["F", p] => some (.folding (p.toNat?.getD 0))
+      | ["C", p, a] => some (.checkingOrCalling (p.toNat?.getD 0) (a.toInt?.getD 0))
+      | ["R", p, x] => some (.completionBettingOrRaisingTo (p.toNat?.getD 0) (x.toInt?.getD 0))
+      | ["K", bs] => some (.betCollection ((bs.splitOn ",").filterMap String.toInt?))
+      | ["S", p, cs] => some (.holeCardsShowingOrMucking (p.toNat?.getD 0) (parseCards cs))
+      | _ => none
+    let log := ops.filterMap parseOp
+    let v := viewer.toNat?
+    let holes := (List.range n).map fun p => String.join ((holeSlots v p log).map String.ofList)
+    out.putStrLn s!"Z {String.ofList (acpcActions (nt == "1") n log)}:{"|".intercalate holes}{String.ofList (acpcBoard log)}"
+    loop T inp out ss
+  | ["lexacpc", text] =>
+    (match lexActions (text.length + 2) text.toList with
+    | none => out.putStrLn "X !ValueError"
+    | some toks =>
+      let amts := streetAmounts 0 0 toks
+      out.putStrLn ("X " ++ " ".intercalate (toks.map fun t => match t with
+        | .fold => "f" | .call => "c" | .street => "/"
+        | .raise none => "r" | .raise (some a) => s!"r{a}") ++ " | " ++
+        " ".intercalate (amts.map fun a => match a with | none => "-" | some x => toString x)))
+    loop T inp out ss
   | ["phh", c] =>
     -- the action lines `from_game_state` writes for the operation log so far
     let acts := fromLog (c == "1") ss.st.ops.reverse
